@@ -1,4 +1,4 @@
-import IpamVerif.AllocLemmas
+import IpamVerif.AllocOrder
 import IpamVerif.System
 /-!
 # C04 — blocks are withheld only while something in the cluster justifies it
@@ -24,47 +24,22 @@ open Ipam
 /-- reserve block `k` (free) and give it back: the used set is what it was, the counter too -/
 theorem reserve_then_release_restores {f : Fam} {p p1 : Pool} (hp : PoolOK f p) {k : Nat} (hk : k < p.max)
     (hfree : k ∉ p.used) (h1 : p.occupy (goBlock p.geo k) = some p1) :
-    ∃ p2, p1.release (goBlock p.geo k) = some p2 ∧ (∀ j, j ∈ p2.used ↔ j ∈ p.used) ∧ p2.count = p.count ∧ PoolOK f p2 := by
-  have hbw := goBlock_WF hp hk
-  obtain ⟨hI1, hg1, _, _, hm1⟩ := (C14.occupy_refines hp.2.1 hp.1 hbw).2 p1 h1
-  have hp1 : PoolOK f p1 := ⟨hI1, hg1 ▸ hp.2.1, hg1 ▸ hp.2.2⟩
-  have hmax1 : p1.max = p.max := by unfold Pool.max; rw [hg1]
-  cases h2 : p1.release (goBlock p.geo k) with
-  | none =>
-    exfalso
-    have := (C14.release_refines hp1.2.1 hI1 hbw).1.mp h2
-    rw [hg1] at this
-    rcases this with h | h
-    · exact h rfl
-    · have hsub := (C13.block_is_ith_subrange hp.2.1 hk).2.2
-      have := (goBlock p.geo k).size_pos
-      unfold Cidr.Disjoint at h
-      have := hsub.1; have := hsub.2
-      omega
-  | some p2 =>
-    obtain ⟨hI2, hg2, _, _, hm2⟩ := (C14.release_refines hp1.2.1 hI1 hbw).2 p2 h2
-    have honly : ∀ j, C14.Touches p (goBlock p.geo k) j ↔ j = k :=
-      C14.touches_only_enclosing hp.2.1 hk ⟨Nat.le_refl _, Nat.le_refl _⟩
-    have honly1 : ∀ j, C14.Touches p1 (goBlock p.geo k) j ↔ j = k := by
-      intro j
-      unfold C14.Touches
-      rw [hmax1, hg1]
-      exact honly j
-    have hmem : ∀ j, j ∈ p2.used ↔ j ∈ p.used := by
-      intro j
-      rw [hm2 j, hm1 j, honly1 j, honly j]
-      constructor
-      · rintro ⟨h | h, hne⟩
-        · exact h
-        · exact absurd h hne
-      · intro h
-        exact ⟨Or.inl h, fun e => hfree (e ▸ h)⟩
-    refine ⟨p2, rfl, hmem, ?_, ⟨hI2, hg2 ▸ hp1.2.1, hg2 ▸ hp1.2.2⟩⟩
-    -- equal duplicate-free lists up to membership have equal length
-    rw [hI2.count_eq, hp.1.count_eq]
-    apply Nat.le_antisymm
-    · exact hI2.nodup.length_le_of_subset (fun j hj => (hmem j).mp hj)
-    · exact hp.1.nodup.length_le_of_subset (fun j hj => (hmem j).mpr hj)
+    ∃ p2, p1.release (goBlock p.geo k) = some p2 ∧ (∀ j, j ∈ p2.used ↔ j ∈ p.used) ∧ p2.count = p.count ∧ PoolOK f p2 :=
+  Ipam.reserve_then_release_restores hp hk hfree h1
+
+/-- **an allocation attempt that does not end in a reservation leaves every used set as it was** — whichever
+entries were tried, whichever family ran out (the IPv4 block of a dual-stack entry whose IPv6 pool is
+exhausted is given back): only cursors and the allocation / release counters moved -/
+theorem refused_attempt_reserves_nothing {a a' : Alloc} (ha : a.WF) (l : List Nat)
+    (h : a.prioritized l = (a', none)) : AllocEqv a a' ∧ a'.WF :=
+  let ⟨_, hwf, he⟩ := prioritized_le ha l h
+  ⟨he rfl, hwf⟩
+
+/-- … and one that does reserve only adds to the used sets (nothing is released on the way) -/
+theorem attempt_only_grows {a a' : Alloc} (ha : a.WF) (l : List Nat) (r : Option (List Cidr × Nat))
+    (h : a.prioritized l = (a', r)) : AllocLe a a' ∧ a'.WF :=
+  let ⟨hle, hwf, _⟩ := prioritized_le ha l h
+  ⟨hle, hwf⟩
 
 /-- a failing allocation from a pool reserves nothing: only the rotating cursor of that pool moved -/
 theorem failed_allocation_reserves_nothing {a a' : Alloc} {i : Nat} {f : Fam} {c : CC} {p : Pool}
@@ -134,5 +109,83 @@ theorem success_keeps (s : Sys) (name : String) (cidrs : List Cidr) (i : Nat) (w
     simp only at hok
     subst hok
     simp [hget]
+
+end Ipam.C04
+
+namespace Ipam.C04
+open Ipam
+
+/-- **one node work item, seen from the reservation state**: either nothing stays reserved — every used
+set is what it was before the item (refusal; node vanished; node turned out to have other pod CIDRs; all
+write attempts failed) — or the item ended well (`res = "ok"`) with exactly the blocks `prioritizedCIDRs`
+reserved from one entry, and then either the write succeeded and the node is associated with that entry, or
+the cache shows the node already holding exactly those CIDRs (the "answer was lost" case) -/
+theorem item_keeps_only_justified_reservations (s : Sys) (hwf : s.alloc.WF) (n : NodeObj) (refresh : Bool)
+    (ws : List WOut) (hn : n.hasCidrs = false) :
+    AllocEqv s.alloc (allocateOrOccupy s n refresh ws).1.alloc ∨
+    ∃ al cidrs i, s.alloc.prioritized (s.alloc.ordered n.labels true) = (al, some (cidrs, i)) ∧
+      (allocateOrOccupy s n refresh ws).2.res = "ok" ∧
+      ((allocateOrOccupy s n refresh ws).1.alloc = al ∨
+       ∃ c, al.get? i = some c ∧ (allocateOrOccupy s n refresh ws).1.alloc = al.set i (c.addAssoc n.name)) := by
+  unfold allocateOrOccupy
+  rw [if_neg (by simp [hn])]
+  cases hp : s.alloc.prioritized (s.alloc.ordered n.labels true) with
+  | mk al r =>
+    cases r with
+    | none =>
+      left
+      exact (refused_attempt_reserves_nothing hwf _ hp).1
+    | some ci =>
+      obtain ⟨cidrs, i⟩ := ci
+      simp only
+      obtain ⟨a'', hrel, heqv, _⟩ := prioritized_then_release hwf _ hp
+      split
+      · left
+        -- empty reservation: `cidrs = []`, there is nothing to restore
+        rename_i he
+        have hc : cidrs = [] := by simpa using he
+        subst hc
+        simp only [Alloc.releaseAll, Prod.mk.injEq] at hrel
+        exact hrel.1 ▸ heqv
+      · -- the state the second half of the item starts from differs from `al` in the cache and queue only
+        have key : ∀ (s2 : Sys), s2.alloc = al →
+            AllocEqv s.alloc (updateCIDRsAllocation s2 n.name cidrs i ws).1.alloc ∨
+            ((updateCIDRsAllocation s2 n.name cidrs i ws).2.res = "ok" ∧
+             ((updateCIDRsAllocation s2 n.name cidrs i ws).1.alloc = al ∨
+              ∃ c, al.get? i = some c ∧ (updateCIDRsAllocation s2 n.name cidrs i ws).1.alloc = al.set i (c.addAssoc n.name))) := by
+          intro s2 hs2
+          unfold updateCIDRsAllocation
+          split
+          · left; simp only [hs2, hrel]; exact heqv
+          · split
+            · right; exact ⟨rfl, Or.inl hs2⟩
+            · split
+              · left
+                simp only [hs2, hrel]
+                exact heqv
+              · simp only
+                split
+                · right
+                  refine ⟨rfl, ?_⟩
+                  simp only [hs2]
+                  cases hg : al.get? i with
+                  | none => left; rfl
+                  | some c => right; exact ⟨c, rfl, rfl⟩
+                · left; simp only [hs2, hrel]; exact heqv
+        have fin : ∀ (s2 : Sys), s2.alloc = al →
+            AllocEqv s.alloc (updateCIDRsAllocation s2 n.name cidrs i ws).1.alloc ∨
+            ∃ al' cidrs' i', (al, some (cidrs, i)) = (al', some (cidrs', i')) ∧
+              (updateCIDRsAllocation s2 n.name cidrs i ws).2.res = "ok" ∧
+              ((updateCIDRsAllocation s2 n.name cidrs i ws).1.alloc = al' ∨
+               ∃ c, al'.get? i' = some c ∧ (updateCIDRsAllocation s2 n.name cidrs i ws).1.alloc = al'.set i' (c.addAssoc n.name)) := by
+          intro s2 hs2
+          rcases key s2 hs2 with h | h
+          · exact Or.inl h
+          · exact Or.inr ⟨al, cidrs, i, rfl, h.1, h.2⟩
+        split
+        · split
+          · exact fin _ rfl
+          · exact fin _ rfl
+        · exact fin _ rfl
 
 end Ipam.C04
